@@ -2,7 +2,7 @@
   parser.py: `_parser.parse`, nested parsers, and the entry points `parse`, `parsesingle`, `split`.
 -/
 import Bashlex.Model.Actions
-import Bashlex.LR.Real
+import Bashlex.LR.RealTables
 
 namespace Bashlex
 
@@ -10,9 +10,6 @@ namespace Bashlex
     the member name; numbering as in `Gen.termNames` (checked by `termNames_agree`) -/
 def TokType.sym (t : TokType) : Nat :=
   if t = .EOF then 0 else 2 + (TokType.all.idxOf t)
-
-theorem termNames_agree : Gen.termNames = ["$end", "error"] ++ TokType.all.map TokType.name := by
-  decide
 
 def symOfTok (t : Token) : Nat :=
   match t.ttype with
